@@ -6,7 +6,7 @@
 (* small-width design models.  Same interface as tla/dom_big/Num.tla.       *)
 (* JSON encoding of a number in this domain: a plain JSON integer.          *)
 (***************************************************************************)
-EXTENDS Integers, Sequences
+EXTENDS Integers, Sequences, Bitwise
 
 DomName == "int"
 MinI(a, b) == IF a < b THEN a ELSE b
@@ -41,6 +41,10 @@ ZBitLen(a)   == BitLenI(ZAbs(a))
 ZBitAbs(a, i) == (ZAbs(a) \div P2(i)) % 2
 ZUMod2(R, w) == R % P2(w)
 ZWrap(R, signed, w) == LET m == R % P2(w) IN IF signed /\ m >= P2(w - 1) THEN m - P2(w) ELSE m
+\* bit operations on non-negative patterns
+ZBitAnd(x, y) == x & y
+ZBitOr(x, y)  == x | y
+ZBitXor(x, y) == x ^^ y
 RECURSIVE ZPow(_, _)
 ZPow(a, e)   == IF e = 0 THEN 1 ELSE a * ZPow(a, e - 1)
 ZMin(a, b)   == IF a <= b THEN a ELSE b
